@@ -47,6 +47,7 @@ def run(ctx):
         return
     opt_local(ctx, lexpr, pt)
     opt_guard(ctx, lexpr, pt)
+    opt_decision(ctx, lexpr, pt)
     subparser_end(ctx, lexpr)
     quote_table(ctx, lexpr, pt)
     c10.close_param(ctx, lexpr, ctx.rule("R-CLOSE-PARAM", "closing delimiters are compared with the opener's partner in "
@@ -258,6 +259,154 @@ def opt_guard(ctx, lexpr, pt):
         else:
             r.ok("%s -> %s%s" % (desc, sorted(kinds), (" via " + ",".join(sorted(uses))) if uses else ""), pt)
     r.floor("option-cases", len(cases))
+
+
+class Str:
+    """A known token text (the symbol scanner's result) for the decision-table evaluation."""
+
+    def __init__(self, b):
+        self.b = bytearray(b)
+
+    def __repr__(self):
+        return "Str(%r)" % bytes(self.b)
+
+
+def opt_decision(ctx, lexpr, pt):
+    """Decision table of the letter-initial arm over representative token texts and option values:
+    postfix keyword first, then nil, then t, else symbol - exactly as documented."""
+    r = ctx.rule("R-OPT-DECISION", "letter-initial tokens: `name:` is a keyword iff postfix keywords are on; otherwise nil / t "
+                                   "follow their own option; every other name is a symbol (representative texts x options)")
+    tok = lexpr.variant_names("parse::Token")
+
+    def variant(adt, name):
+        for v in lexpr.adts[adt]["variants"]:
+            if v["name"] == name:
+                return Adt(adt, v["idx"], [], name)
+        raise KeyError(name)
+
+    texts = [b"nil", b"t", b"x", b"nil:", b"t:", b"x:", b"nilx", b"tt", b"n", b"nil::"]
+    n = 0
+    decided = 0
+    undecided = []
+    for kw in (0, 2, 5, 7):
+        for nil in ("Default", "EmptyList", "Special"):
+            for tsym in ("Default", "True"):
+                for text in texts:
+                    n += 1
+                    opts = {"keyword_syntaxes": kw, "nil_symbol": variant("parse::NilSymbol", nil),
+                            "t_symbol": variant("parse::TSymbol", tsym)}
+
+                    def opaque(o, opts=opts):
+                        if "options" in o.path:
+                            for f, v in opts.items():
+                                if f in o.path:
+                                    return v
+                        return None
+
+                    def hook(S, fn, bb, t, args, path, text=text):
+                        p = t["callee"].get("path", "")
+                        full = t["callee"].get("full", "")
+                        nm = F.callee_names(t)
+                        d = []
+                        for a in args:
+                            v = S._deref(a, path)
+                            for _ in range(3):
+                                if isinstance(v, sim.Ref):
+                                    v = S._deref(v, path)
+                            d.append(v)
+                        if p == P + "parse_symbol":
+                            return ("value", Adt("std::result::Result", 0, [Str(text)]))
+                        if d and isinstance(d[0], Str):
+                            s0 = d[0]
+                            if p.endswith("<impl str>::ends_with") and len(d) > 1 and isinstance(d[1], int):
+                                return ("value", int(len(s0.b) > 0 and s0.b[-1] == d[1]))
+                            if p.endswith("<impl str>::starts_with") and len(d) > 1 and isinstance(d[1], int):
+                                return ("value", int(len(s0.b) > 0 and s0.b[0] == d[1]))
+                            if p == "std::string::String::pop":
+                                if s0.b:
+                                    s0.b.pop()
+                                return ("value", UNK)
+                            if "std::ops::Deref::deref" in nm or "std::ops::DerefMut::deref_mut" in nm \
+                                    or p.endswith("String::as_str") or "std::convert::Into::into" in nm \
+                                    or "std::convert::From::from" in nm or p.endswith("into_boxed_str") or "std::borrow::Borrow::borrow" in nm:
+                                return ("value", s0)
+                            if ("std::cmp::PartialEq::eq" in nm or "std::cmp::PartialEq::ne" in nm) and len(d) > 1:
+                                other = d[1]
+                                ob = bytes(other.b) if isinstance(other, (Bytes, Str)) else None
+                                if ob is not None:
+                                    eq = bytes(s0.b) == ob
+                                    return ("value", int(eq if "eq" == t["callee"].get("method") else not eq))
+                            if p.endswith("<impl str>::len") or p.endswith("String::len"):
+                                return ("value", len(s0.b))
+                            if p.endswith("<impl str>::ends_with") and len(d) > 1 and isinstance(d[1], (Bytes, Str)):
+                                return ("value", int(bytes(s0.b).endswith(bytes(d[1].b))))
+                            if p.endswith("<impl str>::strip_suffix") and len(d) > 1:
+                                suf = bytes([d[1]]) if isinstance(d[1], int) else (bytes(d[1].b) if isinstance(d[1], (Bytes, Str)) else None)
+                                if suf is not None:
+                                    if bytes(s0.b).endswith(suf):
+                                        return ("value", lex.some(Str(s0.b[:len(s0.b) - len(suf)])))
+                                    return ("value", lex.none())
+                            if p == "std::string::String::truncate" and len(d) > 1 and isinstance(d[1], int):
+                                del s0.b[d[1]:]
+                                return ("value", sim.Tup([]))
+                            if p.endswith("<impl str>::is_empty") or p.endswith("String::is_empty"):
+                                return ("value", int(len(s0.b) == 0))
+                            if p.endswith("as_bytes"):
+                                return ("value", Bytes(list(s0.b)))
+                            if "std::clone::Clone::clone" in nm or "std::borrow::ToOwned::to_owned" in nm or "std::string::ToString::to_string" in nm:
+                                return ("value", Str(s0.b))
+                            if "drop_in_place" not in p:
+                                unmodelled.append(full or p)
+                        return None
+
+                    unmodelled = []
+                    S = sim.Sim([lexpr], hooks={"call": hook, "opaque": opaque}, inline=lambda a, b: b.path in INL,
+                                max_paths=4000, max_depth=4)
+                    got = set()
+                    try:
+                        for pth in S.run(pt, args={2: text[0]}):
+                            if pth.end != "return":
+                                continue
+                            rv = pth.ret
+                            if isinstance(rv, Adt) and rv.variant == 0 and isinstance(rv.fields[0], Adt):
+                                tk = rv.fields[0]
+                                pay = tk.fields[0] if tk.fields else None
+                                pay = S._deref(pay, pth) if pay is not None else None
+                                got.add((tok[tk.variant], bytes(pay.b) if isinstance(pay, Str) else (pay if isinstance(pay, int) else None)))
+                            else:
+                                got.add(("Err", None))
+                    except sim.Limit:
+                        got = {("inexact", None)}
+                    postfix = bool(kw & 2)
+                    if postfix and text.endswith(b":"):
+                        want = ("Keyword", text[:-1])
+                    elif text == b"nil" and nil != "Default":
+                        want = ("Null", None) if nil == "EmptyList" else ("Nil", None)
+                    elif text == b"t" and tsym == "True":
+                        want = ("Bool", 1)
+                    else:
+                        want = ("Symbol", text)
+                    desc = "%r with keyword flags %d, nil=%s, t=%s" % (text.decode(), kw, nil, tsym)
+                    if got != {want} and (unmodelled or got == {("inexact", None)}):
+                        undecided.append((desc, sorted(set(unmodelled))[:3]))
+                    elif got == {want}:
+                        decided += 1
+                        if n % 24 == 1:
+                            r.ok("%s -> %s" % (desc, want[0]), pt)
+                        else:
+                            r.obligations += 1
+                            r.discharged += 1
+                            r.keys.add(desc)
+                    else:
+                        r.violation(pt.path, "decision:%s" % desc,
+                                    "the token %s is read as %s; the documented reading is %s%s" % (
+                                        desc, sorted(got, key=repr), want[0],
+                                        " %r" % want[1].decode() if isinstance(want[1], bytes) else ""), pt.loc())
+    if undecided:
+        r.note("%d cases not decided (a string operation on the token text has no model): e.g. %s via %s" % (
+            len(undecided), undecided[0][0], undecided[0][1]))
+    r.floor("decision-cases", n)
+    r.floor("decided-cases", decided)
 
 
 def subparser_end(ctx, lexpr):
